@@ -58,6 +58,7 @@ type Call struct {
 	HandlerOK bool
 	Resp      interface{}
 	Done      bool
+	Finished  chan struct{} // optional: closed when the handler returns
 	ch        chan callResult
 	srcInc    int // incarnation of the source node
 	handlerCh chan struct{}
@@ -282,6 +283,9 @@ func (c *Cluster) Deliver(cl *Call, dup bool) {
 	finish := func(resp interface{}, err error) {
 		c.mu.Lock()
 		defer c.mu.Unlock()
+		if cl.Finished != nil {
+			defer close(cl.Finished)
+		}
 		if dup {
 			return
 		}
@@ -848,3 +852,14 @@ func AddVia(n *Node, id string, voter bool) raft.Future[raft.Configuration] {
 func RemoveVia(n *Node, id string) raft.Future[raft.Configuration] {
 	return n.R.RemoveServer(id, time.Hour)
 }
+
+// RegisterHandlers wires the node's RPC handlers into its transport without starting the node
+// (used by the handler-level differential, which calls handlers on nodes whose loops do not run).
+func (n *Node) RegisterHandlers() {
+	n.T.ae = n.R.AppendEntries
+	n.T.rv = n.R.RequestVote
+	n.T.is = n.R.InstallSnapshot
+}
+
+// Log returns the real log behind the write-budget wrapper.
+func (s *Stores) Log() raft.Log { return s.log }
